@@ -31,9 +31,11 @@ struct Bag {
     std::size_t n = 0;
     constexpr void add1(V x)
     {
+#if !defined(C13_BIG)
         for (std::size_t i = 0; i < n; ++i) {
             if (same_fp(v[i], x)) { return; }
         }
+#endif
         v[n++] = x; // running past CAP is a compile error (constant evaluation)
     }
     constexpr void add(V x)
@@ -49,7 +51,11 @@ struct Bag {
 
 constexpr auto build_unary()
 {
+#if defined(C13_BIG)
+    Bag<T, 12000> b; // thorough tier: every k, more small integers; duplicates are kept (counted once in distinct)
+#else
     Bag<T, 1400> b;
+#endif
     int const p  = L::digits;
     T const dm   = L::denorm_min();
     T const e    = L::epsilon();
@@ -82,7 +88,14 @@ constexpr auto build_unary()
     b.add(T(0.75L));
     b.add(T(0.9L));
     b.add(pred(T(1)));
+#if defined(C13_BIG)
+    int small[120]{};
+    for (int i = 0; i < 100; ++i) { small[i] = i + 1; }
+    int const more[] = {127, 128, 255, 256, 1000, 4095, 4096, 32767, 32768, 65535, 65536, 99999, 100000, 999999, 1000000, 8388607, 8388608, 16777215, 16777216, 2147483647};
+    for (int i = 0; i < 20; ++i) { small[100 + i] = more[i]; }
+#else
     int const small[] = {1, 2, 3, 4, 5, 6, 7, 8, 15, 16, 255, 256, 65535, 65536};
+#endif
     for (int n : small) {
         T const x = T(n);
         b.add(x);
@@ -94,7 +107,13 @@ constexpr auto build_unary()
         b.add(pred(x));
         b.add(succ(x));
     }
+#if defined(C13_BIG)
+    int ks[160]{};
+    for (int i = 0; i < 140; ++i) { ks[i] = i - 12 < L::max_exponent - 1 ? i - 12 : L::max_exponent - 1; }
+    for (int i = 0; i < 20; ++i) { ks[140 + i] = L::max_exponent - 1 - i * (L::max_exponent / 24); }
+#else
     int const ks[] = {1, 2, 4, 8, 16, p - 3, p - 2, p - 1, p, p + 1, 30, 31, 32, 33, 61, 62, 63, 64, 65, 100, L::max_exponent - 1};
+#endif
     for (int k : ks) {
         T const x = pow2<T>(k);
         b.add(pred(x));
